@@ -126,7 +126,7 @@ PROPS = {
                     'Evaluator::run pre-checks of party count and bit counts'],
     ),
     'C03': dict(
-        units=['arith', 'divide', 'ops'],
+        units=['arith', 'divide', 'ops', 'mult'],
         deps=[('builder', 'C04'), ('panic', 'C02')],
         kani=[dict(name=n, fn='compile::extend_to_bits', label='complete-for-this-width-pair', thorough_only=t,
                    bound='symbolic wire values and signedness, widening ' + n.split('_', 2)[2].replace('_', ' -> ') + ' bits, loops fully unrolled')
@@ -149,8 +149,10 @@ PROPS = {
               'push_unsigned_division_circuit (for y != 0: quotient == x / y and remainder == x % y) and push_signed_division_circuit (quotient '
               '|x| / |y| negated when the signs differ, remainder |x| % |y| with the sign of x) and the arms of / and % (Division-By-Zero panic '
               'iff y == 0, first failure wins; for / an Overflow panic iff the truncated quotient is not representable, i.e. MIN / -1; otherwise '
-              'the result is the quotient truncated toward zero resp. the remainder with the sign of the dividend). Multiplier, '
-              'casts, the constant-multiplication rewrite and the composition inside compile (operand evaluation, width extension, dispatch) are '
+              'the result is the quotient truncated toward zero resp. the remainder with the sign of the dividend); the arm of * (array '
+              'multiplier with sign handling, unit mult: row invariant (low c bits of x) * y == (addend of the next row) * 2^c + (product bits '
+              'produced so far); an Overflow panic iff the exact signed / unsigned product is not representable, exact otherwise). '
+              'Casts, the constant-multiplication rewrite and the composition inside compile (operand evaluation, width extension, dispatch) are '
               'NOT proved: they are covered by a bounded differential check through compile + eval against exact arithmetic (quick: '
               'boundary-directed and random operands for all widths, all 16 binary operators, both unary operators, all casts, var/const '
               'operand modes; thorough: additionally all 2^16 operand pairs of u8/i8 per operator and all source values of 8/16-bit casts).',
@@ -158,8 +160,9 @@ PROPS = {
              '(Vec, slices, pow2 lemmas, ghost iterators of ranges / reversed ranges / slices); Vec::split_off via vstd; derived PartialEq of the field-less enum Op is structural equality (admit); <[T]>::to_vec specification (assume_specification); rules R0-R3, R5, R5c, R7-R9, R12-R14; a lone `;` inserted after a unit-typed tail '
              'expression where a proof block must follow. The operand types of an arm are abstract (only signedness is used).',
         title='integer operators bit-exact at every width: adder / negation / subtraction / comparators / equality circuits and the arms of '
-              '-x, !x, +, -, /, %, &, |, ^, <, >, ==, !=, <<, >> proved; * and casts by bounded differential check',
-        unverified=['Op::Mul (array multiplier, constant rewrite), Cast / extend_to_bits (Kani for fixed width pairs): bounded differential only',
+              '-x, !x, +, -, *, /, %, &, |, ^, <, >, ==, !=, <<, >> proved; casts and the constant-multiplication rewrite by bounded differential check',
+        unverified=['the constant-multiplication rewrite (x * c => x + .. + x, builds new AST nodes and recurses into compile; known finding C03-F1), Cast / extend_to_bits '
+                    '(Kani for fixed width pairs): bounded differential only',
                     'operand width extension and the dispatch inside the big Op arm of compile; <= and >= are desugared by the parser into (x < y) | (x == y) resp. (x > y) | (x == y)'],
     ),
     'C13': dict(
